@@ -11,7 +11,14 @@ import os
 
 
 class AnchorMissing(Exception):
-    """the construct a rule is about can not be found at all -> analysis error (exit 2)"""
+    """the construct a rule is about can not be found at all -> analysis error (exit 2).
+
+    When `violation` names a construct, the absence itself breaks the property (an obligation of the form
+    "X must be present"): the runner then records a violated obligation instead of an analysis error."""
+
+    def __init__(self, msg, violation=None):
+        super().__init__(msg)
+        self.violation = violation
 
 
 UNKNOWN = object()
